@@ -301,6 +301,33 @@ func TestVerifC11View(t *testing.T) {
 			}
 		}
 	}
+	// One more body of local data: many distinct deep stacks of an approved stack counter, every record
+	// within the 4 KiB name limit. The uploader's report is handed to stage 2 like the others.
+	if p.Mine(0) {
+		ucfg := cfgs["basic"]
+		d := ufix.New(base)
+		d.SetModeRaw("on 2020-01-01")
+		counts := map[string]uint64{"c": 1}
+		for i := 0; i < 120; i++ {
+			n := "s"
+			for f := 0; f < 16; f++ {
+				n += fmt.Sprintf("\nexample.com/p1/internal/some/package%d.(*Type).method%d:+%d,+0x%x", f, i, f+1, 16*f+i)
+			}
+			counts[n] = uint64(i + 1)
+		}
+		d.WriteCount(zzvC11OK, begin, end, counts)
+		ufix.Install(ucfg, "v1.2.3", 0.5)
+		rerr, pan := d.Run(start)
+		res.Evaluations++
+		res.Transitions++
+		if rerr != nil || pan != nil || len(vhttp.Log) != 1 {
+			res.Violate("uploader-failed", fmt.Sprintf("large data set: err=%v panic=%v requests=%d", rerr, pan, len(vhttp.Log)), nil)
+		} else {
+			enc.Encode(zzvStage{Case: "config=basic X=0.5 build=approved data=120 distinct 16-frame stacks", Config: ucfg, Body: vhttp.Log[0].Body, Expect: "accept", Why: "report produced by the uploader under this configuration"})
+			res.Class(fmt.Sprintf("large-report/over-100KiB=%v", len(vhttp.Log[0].Body) > 100*1024))
+		}
+		d.Close()
+	}
 	out.Close()
 	res.States = res.Evaluations
 	res.Validated = res.Evaluations
